@@ -113,6 +113,7 @@ def opsMatSpecial (name : String) : Option Op :=
   | "m4.concat" => some fun _ => do let m ← rm4; let n ← rm4; return okS (m * n).toList
   | "m3.concat_self2" => some fun _ => do let m ← rm3; let n ← rm3; return okS (m * n).toList
   | "m4.concat_self" => some fun _ => do let m ← rm4; let n ← rm4; return okS (m * n).toList
+  | "m3.concat_self" => some fun _ => do let m ← rm3; let n ← rm3; return okS (m * n).toList
   | "m3.inverse_transform2" => some fun _ => do
       let m ← rm3; return ofOpt (m.inverseTransform.map (·.toList))
   | "m3.inverse_transform" => some fun _ => do
